@@ -195,7 +195,27 @@ func (r R) TplNode(multi bool) *ir.Node {
 			b.WriteByte(tplRaw[r.Intn(len(tplRaw), "tplc")])
 		case 1:
 			if multi {
-				b.WriteString(strings.Repeat(" ", r.Intn(3, "trail")) + "\n" + strings.Repeat(" ", r.Intn(3, "lead")))
+				// white space around a line break: spaces, tabs, mixtures, also lines
+				// that consist of nothing but tabs or spaces
+				ws := func(label string) string {
+					switch r.Intn(6, label) {
+					case 0:
+						return ""
+					case 1:
+						return " "
+					case 2:
+						return "  "
+					case 3:
+						return "\t"
+					case 4:
+						return "\t\t"
+					}
+					return " \t "
+				}
+				b.WriteString(ws("trail") + "\n" + ws("lead"))
+				if r.Intn(4, "wsline") == 0 {
+					b.WriteString("\n" + ws("lead2"))
+				}
 			} else {
 				b.WriteString(" ")
 			}
